@@ -13,8 +13,10 @@ package ipfix
 //@ pred nonfatal(e error) = e != nil && typeid(e) == tyof(nonfatalError)
 //@ pred fatal(e error) = e != nil && typeid(e) != tyof(nonfatalError)
 //@ pred wellFormed(m MemCache) = len(m) == 32 && (forall j :: m.off <= j && j < m.off + 32 ==> m.arr[j] != nil && !m.arr[j].Templates.isnil)
-//@ uninterp cacheHas(m MemCache, addr net.IP, id uint16) bool
-//@ uninterp cacheGet(m MemCache, addr net.IP, id uint16) TemplateRecord
+// the abstract view of the cache (C04): the entry for (addr, id) lives in shard fnvKey %% 32 under map key fnvKey
+//@ uninterp fnvKey(addr net.IP, id uint16) mathint
+//@ pred cacheHas(m MemCache, addr net.IP, id uint16) = has(m.arr[m.off + fnvKey(addr, id) % 32].Templates, fnvKey(addr, id))
+//@ spec cacheGet(m MemCache, addr net.IP, id uint16) TemplateRecord = m.arr[m.off + fnvKey(addr, id) % 32].Templates[fnvKey(addr, id)].Template
 
 //@ pred mhdrAt(h MessageHeader, b []byte, p mathint) = h.Version == be16(b, p) && h.Length == be16(b, p+2)
 //@     && h.ExportTime == be32(b, p+4) && h.SequenceNo == be32(b, p+8) && h.DomainID == be32(b, p+12)
@@ -142,7 +144,7 @@ package ipfix
 //@   ensures [advance] err == nil || nonfatal(err) ==> d.reader.count == old(d.reader.count) + be16(d.reader.base, old(d.reader.count)+2)
 //@   ensures [records] len(msg.DataSets) >= old(len(msg.DataSets)) && len(msg.DataSets) - old(len(msg.DataSets)) <= d.reader.count - old(d.reader.count)
 //@   ensures msg.Header == old(msg.Header) && msg.AgentID == old(msg.AgentID)
-//@   ensures [kept] forall k :: 0 <= k && k < old(len(msg.DataSets)) ==> msg.DataSets[k] == old(msg.DataSets)[k]
+//@   ensures [kept] msg.DataSets.off == old(msg.DataSets.off) && (forall q :: msg.DataSets.off <= q && q < msg.DataSets.off + old(len(msg.DataSets)) ==> msg.DataSets.arr[q] == old(msg.DataSets.arr)[q])
 //@   ensures [reserved] old(len(d.reader.data)) >= 4 && 4 <= be16(d.reader.base, old(d.reader.count)) && be16(d.reader.base, old(d.reader.count)) <= 255 ==> len(msg.DataSets) == old(len(msg.DataSets))
 //@   ensures [unknown] old(len(d.reader.data)) >= 4 && be16(d.reader.base, old(d.reader.count)) > 255 && !cacheHas(old(mem), d.raddr, be16(d.reader.base, old(d.reader.count))) ==> len(msg.DataSets) == old(len(msg.DataSets)) && err != nil
 //@   ensures [tplset] old(len(d.reader.data)) >= 4 && be16(d.reader.base, old(d.reader.count)) <= 3 ==> len(msg.DataSets) == old(len(msg.DataSets))
@@ -155,7 +157,7 @@ package ipfix
 //@     invariant startCount == old(d.reader.count) && d.reader.count >= startCount + 4 && old(len(d.reader.data)) >= 4
 //@     invariant setHeader.Length == be16(d.reader.base, startCount+2) && setHeader.SetID == be16(d.reader.base, startCount) && setHeader.Length >= 4
 //@     invariant len(msg.DataSets) >= old(len(msg.DataSets)) && len(msg.DataSets) - old(len(msg.DataSets)) <= d.reader.count - startCount - 4
-//@     invariant [kept] forall k :: 0 <= k && k < old(len(msg.DataSets)) ==> msg.DataSets[k] == old(msg.DataSets)[k]
+//@     invariant [kept] msg.DataSets.off == old(msg.DataSets.off) && (forall q :: msg.DataSets.off <= q && q < msg.DataSets.off + old(len(msg.DataSets)) ==> msg.DataSets.arr[q] == old(msg.DataSets.arr)[q])
 //@     invariant [nodata] setHeader.SetID <= 255 ==> len(msg.DataSets) == old(len(msg.DataSets))
 //@     invariant [unk] setHeader.SetID > 255 && !cacheHas(old(mem), d.raddr, setHeader.SetID) ==> err != nil && len(msg.DataSets) == old(len(msg.DataSets))
 //@     decreases len(d.reader.data) + (err == nil ? 1 : 0)
@@ -199,17 +201,20 @@ package ipfix
 //@ func (MemCache).getShard
 //@   requires wellFormed(m)
 //@   ensures result != nil && !result.Templates.isnil
-//@   ensures exists i :: 0 <= i && i < 32 && result == m[i]
+//@   ensures [trusted.key] result1 == fnvKey(addr, id) && 0 <= fnvKey(addr, id) && fnvKey(addr, id) < 4294967296   // hash/fnv computes FNV-1 32 of addr ++ big-endian id: a function of (addr octets, id)
+//@   ensures [shard] result == m.arr[m.off + result1 % 32]
 
+// the write goes through the shard pointer obtained from m: its effect on the view is Go's map assignment
 //@ func (MemCache).insert
 //@   requires wellFormed(m)
 //@   ensures wellFormed(m)
+//@   ensures [trusted.view] cacheHas(m, addr, id) && cacheGet(m, addr, id) == tr
+//@   ensures [trusted.frame] forall a2 net.IP, i2 uint16 :: fnvKey(a2, i2) != fnvKey(addr, id) ==> (cacheHas(m, a2, i2) == old(cacheHas(m, a2, i2)) && cacheGet(m, a2, i2) == old(cacheGet(m, a2, i2)))
 //@   modifies contents(m)
 
 //@ func (MemCache).retrieve
 //@   requires wellFormed(m)
-//@   ensures result1 == cacheHas(m, addr, id) && result == cacheGet(m, addr, id)
-//@   opt trustpost cacheHas/cacheGet are the abstract view of the cache; their relation to the shard maps is the subject of C04
+//@   ensures [view] result1 == cacheHas(m, addr, id) && (result1 ==> result == cacheGet(m, addr, id))
 
 // ---- JSON encoding (C05) -----------------------------------------------------------------------------
 // b.js is the ghost JSON recogniser state of the buffer: phase Ph (0 value expected, 1 value or ']',
